@@ -32,6 +32,41 @@ type generator struct {
 	nextC   int
 	nextK   int
 	nextTok int
+	resync  bool // workers that hold a task frequently ask for it again (retry limit)
+}
+
+// undoWake returns, for histories with held wake-ups, a pair of lines of which the first
+// wakes a worker that is blocked waiting for work (and keeps it from running) and the
+// second takes the reason for the wake-up away again.
+func (g *generator) undoWake(r *run) []string {
+	w := r.w
+	var blocked []string
+	for k, cl := range w.syncs {
+		if !cl.done {
+			blocked = append(blocked, k)
+		}
+	}
+	if len(blocked) == 0 {
+		return nil
+	}
+	sort.Strings(blocked)
+	k := strings.Split(blocked[g.rng.Intn(len(blocked))], "/")
+	spec := w.pqSpec[atoi(k[0])] // "comps plat"
+	switch g.rng.Intn(3) {
+	case 0: // drained and undrained at once
+		pat := k[2]
+		return []string{fmt.Sprintf("0 drain+ %s %s %s hold=1", spec, k[1], pat), fmt.Sprintf("0 drain- %s %s %s", spec, k[1], pat)}
+	case 1: // handed a task that an operator kills before the worker looks
+		g.nextC++
+		f := strings.Fields(spec)
+		d := 4 + atoi(f[1])
+		return []string{fmt.Sprintf("0 exec %d %d %s - 0 sel=0 bg=- retry=0 hold=1", g.nextC, d, f[0]), fmt.Sprintf("0 killop %d 10", w.uuidN+1)}
+	default: // handed a task whose only client goes away; the no-waiters timeout passes first
+		g.nextC++
+		f := strings.Fields(spec)
+		d := 4 + atoi(f[1])
+		return []string{fmt.Sprintf("0 exec %d %d %s - 0 sel=0 bg=- retry=0 hold=1", g.nextC, d, f[0]), fmt.Sprintf("0 cancel %d hold=1", g.nextC), "12 touch hold=1"}
+	}
 }
 
 func (g *generator) dt() int {
@@ -245,7 +280,7 @@ func (g *generator) next(r *run) string {
 			}
 		}
 		sort.Strings(busy)
-		if len(busy) > 0 && g.rng.Chance(1, 2) {
+		if len(busy) > 0 && (g.rng.Chance(1, 2) || g.resync) {
 			k := strings.Split(busy[g.rng.Intn(len(busy))], "/")
 			for _, cand := range g.queues {
 				if strconv.Itoa(w.pqID(ints(cand.comps), cand.plat)) == k[0] {
@@ -261,7 +296,11 @@ func (g *generator) next(r *run) string {
 		report := "i"
 		if task, ok := workerTask[key]; ok && task != "-" {
 			d := taskDigest[task]
-			switch g.rng.Pick(55, 25, 12, 8) {
+			pick := g.rng.Pick(55, 25, 12, 8)
+			if g.resync && g.rng.Chance(2, 3) {
+				pick = 2 // the worker lost the response (or restarted) and asks again: counts against the retry limit
+			}
+			switch pick {
 			case 0:
 				g.nextTok++
 				code, exit := 0, 0
@@ -427,9 +466,9 @@ func TestHarness(t *testing.T) {
 	// which the implementation itself violates a property (monitors only, no model).
 	search := func(prefix []string, qs []queueSpec, seed uint64, only string, focus bool) ([]string, *failure) {
 		for try := 0; try < 40; try++ {
-			g := &generator{rng: hx.NewRand(seed*1000 + uint64(try)), queues: qs, nextC: 1000, nextK: 1000, nextTok: 1000, focus: focus}
+			g := &generator{rng: hx.NewRand(seed*1000 + uint64(try)), queues: qs, nextC: 1000, nextK: 1000, nextTok: 1000, focus: focus, resync: try%4 == 1}
 			lines := append([]string(nil), prefix...)
-			r := &run{drv: drv, noModel: true, onlyProp: only, prev: map[string]string{}, flags: map[string]bool{}, streams: map[int]*streamMon{}, doneTask: map[int]string{}, syncRet: map[string]int64{}}
+			r := &run{drv: drv, noModel: true, onlyProp: only, prev: map[string]string{}, flags: map[string]bool{}, streams: map[int]*streamMon{}, doneTask: map[int]string{}, syncRet: map[string]int64{}, issues: map[string]int{}, issuedTo: map[string]string{}}
 			synctest_run(t, r, func() {
 				for _, l := range lines {
 					r.apply(l)
@@ -463,7 +502,7 @@ func TestHarness(t *testing.T) {
 				res.Count("mismatch-turned-into-failing-input")
 				// shrink in monitor-only mode
 				fails := func(cand []string) bool {
-					r := &run{drv: drv, noModel: true, onlyProp: only, prev: map[string]string{}, flags: map[string]bool{}, streams: map[int]*streamMon{}, doneTask: map[int]string{}, syncRet: map[string]int64{}}
+					r := &run{drv: drv, noModel: true, onlyProp: only, prev: map[string]string{}, flags: map[string]bool{}, streams: map[int]*streamMon{}, doneTask: map[int]string{}, syncRet: map[string]int64{}, issues: map[string]int{}, issuedTo: map[string]string{}}
 					synctest_run(t, r, func() {
 						for _, l := range cand {
 							if r.fail == nil {
@@ -482,7 +521,7 @@ func TestHarness(t *testing.T) {
 					prop = o.Prop
 				}
 				res.Report(hx.Finding{Kind: "violation", Property: prop, What: vf.what + " (found by searching continuations of a history on which model and implementation disagree: " + f.what + ")",
-					Name: vf.name, History: min, Sig: hx.Sig(prop, "violation", vf.name)})
+					Name: vf.name, History: append([]string{"0 mode monitor"}, min...), Sig: hx.Sig(prop, "violation", vf.name)})
 				return
 			}
 		}
@@ -524,15 +563,23 @@ func TestHarness(t *testing.T) {
 		} else {
 			g.focus = rng.Chance(1, 6)
 		}
+		g.resync = rng.Chance(1, 12)
 		lines := g.setup()
 		n := 30 + rng.Intn(170)
-		r := &run{drv: drv, prev: map[string]string{}, flags: map[string]bool{}, streams: map[int]*streamMon{}, doneTask: map[int]string{}, syncRet: map[string]int64{}}
+		r := &run{drv: drv, prev: map[string]string{}, flags: map[string]bool{}, streams: map[int]*streamMon{}, doneTask: map[int]string{}, syncRet: map[string]int64{}, issues: map[string]int{}, issuedTo: map[string]string{}}
 		// one history in seven is judged by the monitors alone and lets stream messages
 		// stay "on the wire" (Send blocks until released) while other segments run
+		// another share is also judged by the monitors alone and suspends woken-up workers
+		// on their way back to the scheduler lock while the next call runs (hold=1)
 		slow := rng.Chance(1, 7)
-		r.noModel = slow
+		holds := !slow && (rng.Chance(1, 8) || (o.Prop == "C04" && rng.Chance(1, 4)))
+		r.noModel = slow || holds
+		if slow {
+			lines = append([]string{"0 mode monitor slow"}, lines...)
+		} else if holds {
+			lines = append([]string{"0 mode monitor"}, lines...)
+		}
 		synctest_run(t, r, func() {
-			r.w.slowSends = slow
 			for _, l := range lines {
 				r.apply(l)
 			}
@@ -542,6 +589,18 @@ func TestHarness(t *testing.T) {
 					for c := range r.w.sending {
 						l = fmt.Sprintf("0 sendrel %d", c)
 						break
+					}
+				}
+				if holds && rng.Chance(1, 4) {
+					l += " hold=1"
+				}
+				if holds && rng.Chance(1, 6) {
+					if pair := g.undoWake(r); pair != nil {
+						for _, pl := range pair {
+							lines = append(lines, pl)
+							r.apply(pl)
+						}
+						continue
 					}
 				}
 				lines = append(lines, l)
@@ -556,6 +615,9 @@ func TestHarness(t *testing.T) {
 		res.TracesVsImpl++
 		if slow {
 			res.Count("history-monitor-only-slow-sends")
+		}
+		if holds {
+			res.Count("history-monitor-only-held-wakeups")
 		}
 		if r.tie {
 			res.Count("history-discarded-cleanup-tie")
